@@ -5,6 +5,7 @@ mod common;
 mod indep_mvt;
 mod c04;
 mod c07;
+mod c10;
 mod c11;
 mod c15;
 mod c17;
@@ -31,6 +32,7 @@ fn main() {
 		}
 	}
 	match prop.as_str() {
+		"C10" => c10::run(&args),
 		"C11" => c11::run(&args),
 		"C15" => c15::run(&args),
 		"C17" => c17::run(&args),
